@@ -42,14 +42,16 @@ func validateContentType(allowed []string, actual string) error {
 	if err != nil {
 		return errors.InvalidContentType(actual, allowed)
 	}
-	if swag.ContainsStringsCI(allowed, mt) {
+	// entries may carry parameters (e.g. "; charset=utf-8"): compare media types only, like the consumers map
+	mediaTypes := normalizeOffers(allowed)
+	if swag.ContainsStringsCI(mediaTypes, mt) {
 		return nil
 	}
-	if swag.ContainsStringsCI(allowed, "*/*") {
+	if swag.ContainsStringsCI(mediaTypes, "*/*") {
 		return nil
 	}
 	parts := strings.Split(actual, "/")
-	if len(parts) == 2 && swag.ContainsStringsCI(allowed, parts[0]+"/*") {
+	if len(parts) == 2 && swag.ContainsStringsCI(mediaTypes, parts[0]+"/*") {
 		return nil
 	}
 	return errors.InvalidContentType(actual, allowed)
